@@ -258,15 +258,19 @@ LINK_INVS = {
         ("mod.func", "py:function", "1", "api.html#$", "-"),
         ("mod.func", "py:class", "1", "api.html#cls", "-"),
     ]),
+    "k3": ("https://c.org/3", "P3", "3", [
+        ("deep", "std:label", "-1", "sub/x.html#$", "-"),
+        ("top3", "std:label", "-1", "index.html", "Top"),
+    ]),
     "k2": ("https://b.org", "P2", "", [
         ("sec-one", "std:label", "-1", "other.html#$", "Two"),
         ("only2", "std:term", "-1", "t.html", "-"),
     ]),
 }
-L_INVS = [None, "k1", "k2", "k*", "zz"]
+L_INVS = [None, "k1", "k2", "k3", "k*", "zz"]
 L_DOMS = [None, "std", "py", "*"]
 L_TYPES = [None, "label", "func*", "*"]
-L_TARGETS = ["sec-one", "mod.func", "sec*", "sec\\*star", "nomatch", "*", "sp ace", "only2"]
+L_TARGETS = ["sec-one", "mod.func", "sec*", "sec\\*star", "nomatch", "*", "sp ace", "only2", "deep", "top3"]
 FORMS = ["auto", "explicit", "empty", "title"]
 
 
